@@ -421,6 +421,38 @@ where
 		_ => return Ok(false),
 	};
 	let parent_key_id = o.key_id.parent_path();
+	// A reserved (locked) or pending (unconfirmed) output belongs to a transaction that is still
+	// outstanding: that transaction is given up as a whole - every output it has reserved is
+	// released, every output it would have created is removed and its entry is marked cancelled
+	// in one commit, as a cancellation by the user would do. (Repairing its outputs one commit
+	// at a time cancelled the entry with the first of them: a scan that stopped in between left
+	// the others reserved under a cancelled entry, where cancel_tx can no longer release them.)
+	if expected_status == OutputStatus::Locked || expected_status == OutputStatus::Unconfirmed {
+		if let Some(id) = o.tx_log_entry {
+			let entries =
+				updater::retrieve_txs(&mut **w, Some(id), None, None, Some(&parent_key_id), true)?;
+			if let Some(entry) = entries.into_iter().next() {
+				let outputs = updater::retrieve_outputs(
+					&mut **w,
+					keychain_mask,
+					false,
+					Some(entry.id),
+					Some(&parent_key_id),
+				)?
+				.into_iter()
+				.map(|m| m.output)
+				.collect();
+				updater::cancel_tx_and_outputs(
+					&mut **w,
+					keychain_mask,
+					entry,
+					outputs,
+					&parent_key_id,
+				)?;
+				return Ok(true);
+			}
+		}
+	}
 	// any transaction associated with this output is cancelled
 	let updated_tx_entry = if o.tx_log_entry.is_some() {
 		let entries = updater::retrieve_txs(
